@@ -189,8 +189,8 @@ func runPairs(casesPath, obsPath string) error {
 	}
 	w := bufio.NewWriterSize(out, 1<<20)
 	defer func() { w.Flush(); out.Close() }()
-	for i := 0; i+1 < len(cs); i += 2 {
-		a, b := cs[i], cs[i+1]
+	for i := 0; i+2 < len(cs); i += 3 {
+		a, b, late := cs[i], cs[i+1], cs[i+2]
 		g.VerifHeld = 0
 		ta, err := newTree(a.typ, a.order, a.keys)
 		if err != nil {
@@ -219,6 +219,19 @@ func runPairs(casesPath, obsPath string) error {
 		}
 		for _, l := range lb {
 			fmt.Fprintln(w, l)
+		}
+		// a third tree, constructed only now (after the first two have split, merged and discarded nodes),
+		// must be as empty and independent as any other
+		tc, err := newTree(late.typ, late.order, late.keys)
+		if err != nil {
+			return err
+		}
+		for j, o := range late.ops {
+			res, dead := seqOp(tc, strings.Fields(o))
+			fmt.Fprintf(w, "%s %d %s | %s locks=%d\n", late.id, j, res, safeDump(tc), g.VerifHeld)
+			if dead {
+				break
+			}
 		}
 	}
 	return nil
